@@ -11,6 +11,7 @@ CONSTANTS
  Script <- ScriptDD
  SerialPrefix = 2
  ObsPolicy = "end"
+ EmitOnly = "all"
  MaxOps = 4
  MaxConc = 2
  SameSubject = TRUE
@@ -23,6 +24,7 @@ CONSTANTS
  CowIndex = TRUE
  InvAfterDel = TRUE
  NormKey = TRUE
+ LockStyle = "global"
 INIT GInit
 NEXT GNext
 INVARIANTS Emit
